@@ -536,6 +536,20 @@ func namedOf(t types.Type) *types.Named {
 // addrOf computes the location denoted by an lvalue expression.
 func (env *SpecEnv) addrOf(x *SExpr) (*Term, types.Type) {
 	switch x.Kind {
+	case "id":
+		// a variable captured by the closure under contract lives in memory: its address is the
+		// free variable itself
+		if env.e != nil && env.e.fn != nil {
+			if _, shadow := env.vars[x.Name]; !shadow {
+				for _, fv := range env.e.fn.FreeVars {
+					if fv.Name() == x.Name {
+						if pt, ok := fv.Type().(*types.Pointer); ok {
+							return env.e.val(env.cur, fv).T, pt.Elem()
+						}
+					}
+				}
+			}
+		}
 	case "sel":
 		bv, bt := env.tr(x.Args[0])
 		obj, index, _ := types.LookupFieldOrMethod(bt, true, env.pkg, x.Name)
@@ -1033,6 +1047,11 @@ func (env *SpecEnv) call(x *SExpr) (*Term, types.Type) {
 				n.cellSt = env.prev
 				return n.tr(args[0])
 			case "has":
+				if a0 := args[0]; a0.Kind == "call" && a0.Args[0].Kind == "id" && (a0.Args[0].Name == "old" || a0.Args[0].Name == "before" || a0.Args[0].Name == "prev") {
+					// has(old(m), k) would read the CURRENT contents of the map that m pointed to at
+					// entry -- almost never what is meant, and a contract that is silently too weak
+					env.fail("has(%s(m), k) reads the map's current contents: write %s(has(m, k))", a0.Args[0].Name, a0.Args[0].Name)
+				}
 				m, mt := env.tr(args[0])
 				k, _ := env.tr(args[1])
 				t, ok := types.Unalias(mt).Underlying().(*types.Map)
